@@ -252,6 +252,13 @@ func nextRangeScoreIndexArgument(cmd string, name string, args Arguments) (float
 	if err != nil || len(str) == 0 {
 		return 0, false, newMissingArgumentError(cmd, name, err)
 	}
+	return parseRangeScoreArgument(cmd, name, str)
+}
+
+func parseRangeScoreArgument(cmd string, name string, str string) (float64, bool, error) {
+	if len(str) == 0 {
+		return 0, false, newInvalidArgumentError(cmd, name, errors.New("empty"))
+	}
 	offset := 0
 	exclusive := false
 	if str[0] == '(' {
